@@ -207,7 +207,12 @@ impl Case {
                     }
                 }
                 let mut pct_runs = 0u64;
+                let mut pct_runs2 = 0u64;
                 let nthreads = c.programs.len();
+                let total_ops: usize = c.programs.iter().map(Vec::len).sum();
+                // depth-2 sweep: two threads with at most four operations in all; every such
+                // case of the thorough tier, one in three of the quick tier
+                let deep = nthreads == 2 && total_ops <= 4 && (THOROUGH.load(std::sync::atomic::Ordering::Relaxed) || c.sched_seed % 3 == 0);
                 if c.pct_sweep && r.violations.is_empty() && r.stats.aborted == 0 && nthreads <= 3 {
                     // systematic depth-1 PCT: every priority order, the running thread demoted
                     // below all others at every step (no spurious CAS failures, no solo windows)
@@ -236,7 +241,7 @@ impl Case {
                             r = r0;
                             break 'pct;
                         }
-                        for step in 0..len {
+                        for step in 1..=len {
                             let mut c2 = base.clone();
                             c2.strategy = Strategy::Pct { change: vec![step] };
                             let r2 = runner.run(&c2);
@@ -249,6 +254,22 @@ impl Case {
                                 r = r2;
                                 break 'pct;
                             }
+                            // depth 2 for the smallest cases: a second demotion at every later
+                            // step of the run with the first one (bounded per case)
+                            if deep && pct_runs < 4000 {
+                                for step2 in step + 1..=r2.stats.steps {
+                                    let mut c3 = base.clone();
+                                    c3.strategy = Strategy::Pct { change: vec![step, step2] };
+                                    let r3 = runner.run(&c3);
+                                    pct_runs += 1;
+                                    pct_runs2 += 1;
+                                    if !r3.violations.is_empty() {
+                                        *c = c3;
+                                        r = r3;
+                                        break 'pct;
+                                    }
+                                }
+                            }
                         }
                     }
                 }
@@ -260,6 +281,7 @@ impl Case {
                 add(cs, "puts_ok", s.puts_ok);
                 add(cs, "sim_steps", s.steps);
                 add(cs, "fault_pct_sweep_runs", pct_runs);
+                add(cs, "fault_pct_sweep_depth2_runs", pct_runs2);
                 add(cs, "cross_thread_conflicts", s.conflicts);
                 add(cs, "persistent_writes", s.persist_writes);
                 add(cs, "fault_crash_points", s.crash_points);
